@@ -1,0 +1,8 @@
+//go:build verif
+
+package forward
+
+// Verification-only accessors (policy family: C20). Add-only.
+
+// VerifSetWriter replaces the stream writer (the agent installs itself).
+func (h *Handler) VerifSetWriter(w StreamWriter) { h.writer = w }
